@@ -19,7 +19,7 @@ def _scope(tier):
         return dict(alpha="ACG", lens=(3, 4), nmax=7, triple_len=(3,), triple_second="ACG", rates=RATES + [0.75],
                     triple_rates=RATES, triple_nmax=6, triple4_alpha="AC")
     return dict(alpha="ACG", lens=(3, 4), nmax=6, triple_len=(3,), triple_second="ACG", rates=[0.0, 0.25, 0.34, 0.5],
-                triple_rates=[0.34, 0.5, 0.67], triple_nmax=5)
+                triple_rates=[0.34, 0.5, 0.67], triple_nmax=4)
 
 
 def shards(tier):
